@@ -321,6 +321,11 @@ class _RootFinder(torch.autograd.Function):
             method_fcn = get_method(name, methods, method)
             y = method_fcn(fwd_fcn, y0, params, **config)
 
+        # the output of an autograd function must be a new tensor: a method may
+        # hand back one of its inputs (e.g. y0 when it already is the solution)
+        if any(y is p for p in (y0, *allparams)):
+            y = y.clone()
+
         ctx.fcn = fcn
 
         # split tensors and non-tensors params
